@@ -185,7 +185,7 @@ func TestVerif_C05_stale_rep_pos(t *testing.T) {
 	}
 	r.Sample(map[string]any{"text": "aAb ", "pattern": "ab", "cs": false, "fwd": true, "slabs": "nil vs 4 poisoned standard + 4 poisoned small", "rep": "bytes vs runes", "withPos": "true vs false"})
 	i := 0
-	kit.Strings([]rune{'a', 'b', 'A', 'á', ' ', '/', '가'}, 1, maxText, func(raw []rune) bool {
+	kit.Strings([]rune{'a', 'b', 'A', 'á', 'Á', ' ', '/', '가'}, 1, maxText, func(raw []rune) bool {
 		i++
 		if !r.Mine(i) {
 			return true
